@@ -31,7 +31,13 @@ done
 for d in $here/seeded/*/; do
     case "$d" in *$filter*) ;; *) continue;; esac
     prop=$(python3 -c "import json;print(json.load(open('$d/meta.json'))['property'])")
-    run_one $d/patch.diff $prop fail
+    outside=$(python3 -c "import json;print(json.load(open('$d/meta.json')).get('outside_property',False))")
+    if [ "$outside" = "True" ]; then
+        # recorded as outside what the property promises: reported, not counted
+        run_one $d/patch.diff $prop fail | sed 's/^MISSED/OUTSIDE/'
+    else
+        run_one $d/patch.diff $prop fail
+    fi
 done
 for p in $here/mutations/benign_*.diff; do
     case "$p" in *$filter*) ;; *) continue;; esac
